@@ -110,6 +110,8 @@ class CallMixin:
             allowed = list(old.ts)
             for a_ in e.args[1:]:
                 obj = self.ev1(a_, st)
+                if obj.ty.kind == "none":
+                    continue
                 if obj.ty.kind == "opt":
                     # a None exception changes nothing
                     isn, obj = obj.ts[0], opt_inner(obj)
@@ -171,6 +173,7 @@ class CallMixin:
             inner = smt.Implies(rng, body)
             q = smt.Forall([(vname, INT)], inner)
             self.ctx.qreg[q.s] = (vname, inner.s)
+            self.ctx.qtag.setdefault(q.s, self.cur_clause)
             return q
         return smt.Exists([(vname, INT)], smt.And(rng, body))
 
@@ -630,6 +633,8 @@ class CallMixin:
     def havoc_modifies(self, con, st, penv):
         for m in con.modifies:
             if m in C.GHOSTS:
+                if m not in st.env:
+                    self.ghost_entry(m, st)
                 st.env[m] = self.fresh_sv(parse_type(C.GHOSTS[m]), "g_" + m, st)
             elif m.startswith("*."):
                 self.heap_havoc(st, m[2:])
